@@ -6,6 +6,8 @@ CFG = dict(
     stages=[
         seq("thr_tsan", "tsan", "c14_logging.c", 400, 40000, mode="thr", wrap=True, per_proc_timeout=1800, env={"TZ": "XYZ-9"}),
         seq("thr_asanh", "asanh", "c14_logging.c", 400, 40000, mode="thr", wrap=True, leak=True, per_proc_timeout=1800, env={"TZ": "UTC"}),
+        # shipped optimisation level under TSan (AWS_ASSERT / pre- and post-conditions compiled out)
+        seq("thr_tsanrel", "tsanrel", "c14_logging.c", 400, 40000, mode="thr", wrap=True, per_proc_timeout=1800, env={"TZ": "XYZ-9"}),
         seq("trunc_asan", "asan", "c14_logging.c", 800, 80000, mode="trunc"),
         seq("trunc_rel", "rel", "c14_logging.c", 400, 40000, mode="trunc"),
     ],
@@ -23,7 +25,8 @@ CFG = dict(
                  "a line buffer of 1 byte cannot hold newline + terminator and is not exercised"],
     min_counts={"any": {"clean_up_with_lines_still_queued": 20, "noalloc_line_truncated": 100, "direct_line_truncated": 100,
                         "level_changed_at_barrier": 50, "foreground_channel": 30, "clean_up_with_more_than_64_lines_queued": 20, "writer_reported_errors": 50,
-                        "subject_name_of_79_to_300_characters": 100}},
+                        "subject_name_of_79_to_300_characters": 100,
+                        "noalloc_logger_stream_refused_a_write": 100}},
 )
 
 META = dict(
